@@ -26,6 +26,8 @@ pub(crate) fn document(p: &mut Parser) {
     }
 
     p.peek_while(|p, kind| {
+        #[cfg(apollo_rs_verif)]
+        crate::verif_trace::emit("Top", p.recursion_limit.current as u64, 0, 0);
         assert_eq!(
             p.recursion_limit.current, 0,
             "unbalanced limit increment / decrement"
